@@ -124,8 +124,13 @@ void harness_shape(void)
 	scn_build_end();
 	reset_log();
 	int r = dispatch(&A, req);
-	if (expect_close) { CHECK(r == -1, "C11.non_jsonrpc_message_costs_the_sender_its_connection"); REACH("closed"); }
-	else { CHECK(r == 0, "C06.malformed_request_keeps_the_connection_and_is_answered"); REACH("kept"); }
+	/* a request object with a usable id must be answered on this connection (C02), so the connection is kept. For
+	   everything else the properties only say that it costs at most the sender's connection: keeping or closing are
+	   both fine (expect_close records what the daemon does today; it is a reachability witness, not a demand) */
+	if (has_id) CHECK(r == 0, "C02.request_with_id_keeps_the_connection");
+	CHECK(r == 0 || r == -1, "C06.malformed_message_costs_at_most_the_senders_connection");
+	if (r == -1) REACH("closed"); else REACH("kept");
+	(void)expect_close;
 	/* at most one response, to the sender only, and it is an error carrying the id when there was a usable one */
 	CHECK(count_responses(&A) <= 1 && count_responses(&O) == 0 && count_responses(&B) == 0, "C02.at_most_one_response_and_only_to_the_sender");
 	struct sent *resp = last_of(&A, K_RESPONSE);
